@@ -41,6 +41,20 @@ pub fn fx(d: &[usize]) -> Vec<D> {
     d.iter().map(|&x| D::F(x)).collect()
 }
 
+thread_local! {
+    /// When set, `B::sc` (the "scalar" pattern constants) produces a multi-element constant of this
+    /// shape instead: uniform (every element = the pattern value) or non-uniform (control).
+    static CONST_OVERRIDE: std::cell::RefCell<Option<(Vec<i64>, bool)>> = std::cell::RefCell::new(None);
+}
+
+pub fn set_const_override(o: Option<(Vec<i64>, bool)>) {
+    CONST_OVERRIDE.with(|c| *c.borrow_mut() = o);
+}
+
+fn const_override() -> Option<(Vec<i64>, bool)> {
+    CONST_OVERRIDE.with(|c| c.borrow().clone())
+}
+
 pub struct B {
     pub g: Graph,
     pub ins: Vec<InSpec>,
@@ -89,6 +103,11 @@ impl B {
     }
     /// single-element f32 constant of rank `rank`
     pub fn sc(&mut self, rank: usize, v: f32) -> String {
+        if let Some((dims, uniform)) = const_override() {
+            let n: i64 = dims.iter().product();
+            let vals: Vec<f32> = (0..n).map(|i| if uniform || i == 0 { v } else { v + 0.5 * i as f32 }).collect();
+            return self.cf(&dims, &vals);
+        }
         self.cf(&vec![1i64; rank], &[v])
     }
     pub fn ci32(&mut self, dims: &[i64], vals: &[i32]) -> String {
@@ -140,6 +159,10 @@ impl B {
         self.g.outputs.push(ValueInfo::new(name, dtype, None));
     }
     pub fn fin(self, name: String, family: &'static str) -> Tm {
+        let name = match const_override() {
+            Some((dims, uniform)) => format!("{name}/multiconst{dims:?}{}", if uniform { "uniform" } else { "varied" }).replace(' ', ""),
+            None => name,
+        };
         Tm { name, family, g: self.g, ins: self.ins, opset: 21, vals: self.vals }
     }
 }
@@ -1045,6 +1068,53 @@ pub fn all_templates(rng: &mut Rng, thorough: bool) -> Vec<Tm> {
     for variant in 0..3 {
         v.push(t_constprop(variant));
     }
+    // multi-element pattern constants: uniform (all elements = the pattern value) and varied (control),
+    // rank 1 and 2, (a) shaped like the other operand's trailing dims, (b) broadcasting it to a bigger shape
+    for uniform in [true, false] {
+        // (x shape, constant shape)
+        let combos: [(&[usize], &[i64]); 8] = [
+            (&[2, 3], &[3]),
+            (&[2, 3], &[2, 3]),
+            (&[2, 3], &[1, 3]),
+            (&[2, 1], &[3]),
+            (&[3], &[2, 3]),
+            (&[], &[3]),
+            (&[1, 1], &[2, 3]),
+            (&[2, 1], &[2, 3]),
+        ];
+        for (xs, cs) in combos {
+            set_const_override(Some((cs.to_vec(), uniform)));
+            for op in 0..4 {
+                v.push(t_identity(op, xs, 0, false, true, f, None, false));
+                if op == 0 || op == 2 {
+                    v.push(t_identity(op, xs, 0, true, true, f, None, true));
+                }
+            }
+            v.push(t_reciprocal(xs, 0, 1.0, f));
+            v.push(t_gelu(xs, 0, false, 0, false));
+            v.push(t_gelu(xs, 1, true, 0, true));
+            v.push(t_approx_gelu(xs, 0, false));
+            v.push(t_swish(xs, 0, 1.702, false, false));
+            if xs.len() == 2 {
+                v.push(t_safe_softmax(xs, 0, -1, None, 0.0));
+            }
+        }
+        for (cs, xs) in [(&[4i64][..], &[2usize, 4][..]), (&[2, 4], &[2, 4]), (&[3, 2, 4], &[2, 4]), (&[2, 4], &[1, 4])] {
+            set_const_override(Some((cs.to_vec(), uniform)));
+            v.push(t_layernorm(xs, -1, -1, 1, true, &[4], true, 0, true));
+            v.push(t_rmsnorm(xs, -1, 1, true, &[4], 0));
+        }
+        for cs in [&[3i64][..], &[2, 3], &[1, 3], &[4, 2, 3]] {
+            set_const_override(Some((cs.to_vec(), uniform)));
+            v.push(t_matmul_scale(&[2, 4], &[4, 3], None, None, sc(false, 0.5, 0, false)));
+            v.push(t_matmul_scale(&[2, 4], &[4, 3], None, None, sc(true, 2.0, 0, false)));
+        }
+        for cs in [&[4i64][..], &[2, 4]] {
+            set_const_override(Some((cs.to_vec(), uniform)));
+            v.push(t_matmul_scale(&[2, 4], &[4, 3], sc(false, 0.5, 0, false), None, None));
+        }
+    }
+    set_const_override(None);
     // guard wrappers: every f32 intermediate of a representative of each family
     let reps: Vec<Tm> = vec![
         t_identity(0, &[3], 0, false, true, f, None, true),
